@@ -65,7 +65,6 @@ struct http_ghost {
 	unsigned nwrite;		/* netbuf_write_write calls and their arguments, in order */
 	const uint8_t * wbuf[2];
 	size_t wlen[2];
-	size_t fe_i, fe_j;		/* findeol's ghost positions (set by callers through ghost statements) */
 };
 extern struct http_ghost g_http;
 /* ghost INPUTS, chosen by the harness and never assigned by http.c or the models */
@@ -98,9 +97,22 @@ extern struct http_ghost_in g_http_in;
 #define g_http_wlen g_http.wlen
 #define g_http_i g_http_in.i
 #define g_http_j g_http_in.j
-#define g_http_fe_i g_http.fe_i
-#define g_http_fe_j g_http.fe_j
 #define g_http_eol g_http_in.eol
+
+/*
+ * ghost record of the line structure found by gotheaders' counting pass: ls[k] = start of line k (ls[cnt] = current
+ * scan position), ei[r] = index of the line whose EOL is at byte position r.  Written only by ghost statements; read
+ * only by loop invariants.  HTTP_HB bounds the header block handled by the gotheaders group (object-size parameter).
+ */
+#ifndef HTTP_HB
+#define HTTP_HB 32
+#endif
+#define HTTP_NL (HTTP_HB / 2 + 2)
+struct http_ghost_hdr {
+	size_t ls[HTTP_NL + 1];
+	size_t ei[HTTP_HB + 4];
+};
+extern struct http_ghost_hdr g_hdr;
 
 int http_cb_stub(void *, struct http_response *);
 
